@@ -573,4 +573,270 @@ example : ConeOk (⟨1, 2⟩ : Cone ℚ) ∧ RadOk (⟨1, 0, 0⟩ : V3 ℚ) ∧ 
     ∧ ConeBnd (fun x => x) (⟨1, 2⟩ : Cone ℚ) ⟨1, 0, 0⟩ := by
   simp only [ConeOk, RadOk, ConeBnd, Cone.Mem, fieldNum_two]; norm_num
 
+/-! ## Capsule, 2-D (`point_capsule.rs`, `dim2`: the on-axis fallback direction is the segment normal) -/
+
+/-- squared distance from `p` to the projection on the capsule's axis -/
+def capAxisSq2 (s : Capsule2 K) (p : V2 K) : K :=
+  letI := fieldNum K sq
+  (p.sub ((⟨s.a, s.b⟩ : Segment2 K).projectLoc p).1.pt).normSq
+
+/-- membership in the capsule ⇔ the axis projection is within `r` -/
+theorem cap2_mem_iff (s : Capsule2 K) (p : V2 K) :
+    letI := fieldNum K sq
+    s.Mem p ↔ capAxisSq2 sq s p ≤ s.r * s.r := by
+  letI := fieldNum K sq
+  constructor
+  · rintro ⟨q, hq, hle⟩
+    have h := seg2_project_optimal sq ⟨s.a, s.b⟩ p q hq
+    simp only [capAxisSq2, V2.normSq, V2.dot, V2.sub, dsq2] at *
+    linarith
+  · intro h
+    exact ⟨_, seg2_project_mem sq ⟨s.a, s.b⟩ p, h⟩
+
+/-- the result shapes of `Capsule::project_local_point`: the query point itself (inside, solid), or the axis projection
+`P` pushed by `r` along a unit vector `d` (which is the direction `P → p` whenever that is not degenerate). -/
+private theorem cap2_cases (hs : LawfulSqrt sq) (s : Capsule2 K) (p : V2 K) (solid : Bool) :
+    letI := fieldNum K sq
+    ((mkRat 1 4503599627370496 : ℚ) : K) ≤ s.r →
+    ((s.project p solid).inside = true ↔ capAxisSq2 sq s p ≤ s.r * s.r) ∧
+    (((s.project p solid).pt = p ∧ capAxisSq2 sq s p ≤ s.r * s.r ∧ solid = true) ∨
+     (∃ d : V2 K, d.normSq = 1 ∧ (s.project p solid).pt = ((⟨s.a, s.b⟩ : Segment2 K).projectLoc p).1.pt.add (d.smul s.r) ∧
+        (((mkRat 1 4503599627370496 : ℚ) : K) * ((mkRat 1 4503599627370496 : ℚ) : K) < capAxisSq2 sq s p →
+          (p.sub ((⟨s.a, s.b⟩ : Segment2 K).projectLoc p).1.pt) = d.smul (sq (capAxisSq2 sq s p))) ∧
+        (capAxisSq2 sq s p ≤ s.r * s.r → solid = false))) := by
+  letI := fieldNum K sq
+  intro hr
+  have he := eps_pos (K := K)
+  have hnn : 0 ≤ capAxisSq2 sq s p := by
+    simp only [capAxisSq2, V2.normSq, V2.dot]
+    nlinarith [mul_self_nonneg (p.sub ((⟨s.a, s.b⟩ : Segment2 K).projectLoc p).1.pt).x,
+      mul_self_nonneg (p.sub ((⟨s.a, s.b⟩ : Segment2 K).projectLoc p).1.pt).y]
+  have h2 := hs.sq_mul _ hnn
+  have h0 := hs.nonneg _ hnn
+  have hr0 : 0 ≤ s.r := le_trans he.le hr
+  have hee : ((mkRat 1 4503599627370496 : ℚ) : K) * ((mkRat 1 4503599627370496 : ℚ) : K) ≤ s.r * s.r :=
+    mul_self_le_mul_self he.le hr
+  have hle : sq (capAxisSq2 sq s p) ≤ s.r ↔ capAxisSq2 sq s p ≤ s.r * s.r := by
+    constructor
+    · intro h; rw [← h2]; exact mul_self_le_mul_self h0 h
+    · intro h; rw [← h2] at h; exact le_of_mul_self_le hr0 h
+  simp only [capAxisSq2] at *
+  generalize hres : s.project p solid = res
+  dsimp only [Capsule2.project] at hres
+  split_ifs at hres with c1 c2 c3 c4 <;> subst hres <;>
+    simp only [Bool.and_eq_true, decide_eq_true_eq, eps, fieldNum_lit, fieldNum_sqrt] at * <;>
+    simp only [Segment2.project] at *
+  · -- not on the axis, solid and inside
+    exact ⟨⟨fun _ => hle.mp c2.2, fun _ => trivial⟩, Or.inl ⟨trivial, hle.mp c2.2, c2.1⟩⟩
+  · -- not on the axis: push along the direction
+    refine ⟨by rw [hle], Or.inr ⟨_, ?_, rfl, ?_, ?_⟩⟩
+    · have hpos : 0 < (p.sub ((⟨s.a, s.b⟩ : Segment2 K).projectLoc p).1.pt).normSq := lt_trans (mul_pos he he) c1
+      have hne : sq (p.sub ((⟨s.a, s.b⟩ : Segment2 K).projectLoc p).1.pt).normSq ≠ 0 := by
+        intro h; rw [h] at h2; linarith
+      generalize sq (p.sub ((⟨s.a, s.b⟩ : Segment2 K).projectLoc p).1.pt).normSq = d at *
+      generalize (p.sub ((⟨s.a, s.b⟩ : Segment2 K).projectLoc p).1.pt) = w at *
+      simp only [V2.normSq, V2.dot, V2.sdiv] at *
+      field_simp
+      linarith
+    · intro _
+      have hne : sq (p.sub ((⟨s.a, s.b⟩ : Segment2 K).projectLoc p).1.pt).normSq ≠ 0 := by
+        intro h; rw [h] at h2; have := mul_pos he he; linarith
+      apply v2_ext <;> simp only [V2.smul, V2.sdiv] <;> field_simp
+    · intro hN
+      by_contra hsol
+      exact c2 ⟨by simpa using hsol, hle.mpr hN⟩
+  · -- on the axis, solid
+    push Not at c1
+    exact ⟨⟨fun _ => le_trans c1 hee, fun _ => trivial⟩, Or.inl ⟨trivial, le_trans c1 hee, c3⟩⟩
+  · -- on the axis, hollow: orthogonal direction
+    push Not at c1
+    refine ⟨⟨fun _ => le_trans c1 hee, fun _ => trivial⟩, Or.inr ⟨_, ?_, rfl, fun h => absurd h (not_lt.mpr c1), fun _ => by simpa using c3⟩⟩
+    have hpos : 0 < (⟨(s.b.sub s.a).y, -(s.b.sub s.a).x⟩ : V2 K).normSq := lt_trans (mul_pos he he) c4
+    have h2' := hs.sq_mul _ hpos.le
+    have hne : sq (⟨(s.b.sub s.a).y, -(s.b.sub s.a).x⟩ : V2 K).normSq ≠ 0 := by
+      intro h; rw [h] at h2'; linarith
+    generalize sq (⟨(s.b.sub s.a).y, -(s.b.sub s.a).x⟩ : V2 K).normSq = d at *
+    generalize (⟨(s.b.sub s.a).y, -(s.b.sub s.a).x⟩ : V2 K) = w at *
+    simp only [V2.normSq, V2.dot, V2.sdiv] at *
+    field_simp
+    linarith
+  · -- degenerate segment, hollow
+    push Not at c1
+    refine ⟨⟨fun _ => le_trans c1 hee, fun _ => trivial⟩, Or.inr ⟨⟨0, 1⟩, by simp [V2.normSq, V2.dot], ?_, fun h => absurd h (not_lt.mpr c1), fun _ => by simpa using c3⟩⟩
+    simp [V2.smul]
+
+/-- domain: radius at least `ε = 2⁻⁵²` (the property's domain has `r ≥ 10⁻²`) -/
+def CapOk2 (s : Capsule2 K) : Prop := ((mkRat 1 4503599627370496 : ℚ) : K) ≤ s.r
+
+/-- **inside flag** ⇔ membership in the capsule -/
+theorem cap2_inside_iff (hs : LawfulSqrt sq) (s : Capsule2 K) (p : V2 K) (solid : Bool) (h : CapOk2 s) :
+    letI := fieldNum K sq
+    (s.project p solid).inside = true ↔ s.Mem p := by
+  rw [cap2_mem_iff]; exact (cap2_cases sq hs s p solid h).1
+
+/-- `contains_local_point` (default) ⇔ membership -/
+theorem cap2_contains_iff (hs : LawfulSqrt sq) (s : Capsule2 K) (p : V2 K) (h : CapOk2 s) :
+    letI := fieldNum K sq
+    defaultContains2 (s.project) p = true ↔ s.Mem p :=
+  cap2_inside_iff sq hs s p true h
+
+/-- **membership**: the projection is a point of the capsule (all branches, including the degenerate on-axis ones) -/
+theorem cap2_project_mem (hs : LawfulSqrt sq) (s : Capsule2 K) (p : V2 K) (solid : Bool) (h : CapOk2 s) :
+    letI := fieldNum K sq
+    s.Mem (s.project p solid).pt := by
+  letI := fieldNum K sq
+  rcases (cap2_cases sq hs s p solid h).2 with ⟨e, hN, _⟩ | ⟨d, hd, e, _, _⟩
+  · rw [e]; exact (cap2_mem_iff sq s p).mpr hN
+  · rw [e]
+    refine ⟨_, seg2_project_mem sq ⟨s.a, s.b⟩ p, ?_⟩
+    generalize ((⟨s.a, s.b⟩ : Segment2 K).projectLoc p).1.pt = P
+    simp only [V2.normSq, V2.dot, V2.sub, V2.add, V2.smul] at *
+    apply le_of_eq
+    linear_combination (s.r * s.r) * hd
+
+/-- **optimality**: for `solid = true`, or for a point outside, no point of the capsule is closer than the projection. -/
+theorem cap2_project_optimal (hs : LawfulSqrt sq) (s : Capsule2 K) (p y : V2 K) (solid : Bool) (h : CapOk2 s) :
+    letI := fieldNum K sq
+    s.Mem y → (solid = true ∨ ¬ s.Mem p) → dsq2 p (s.project p solid).pt ≤ dsq2 p y := by
+  letI := fieldNum K sq
+  intro hy hc
+  rcases (cap2_cases sq hs s p solid h).2 with ⟨e, _, _⟩ | ⟨d, hd, e, hdir, hsol⟩
+  · rw [e]; simp only [dsq2]
+    nlinarith [mul_self_nonneg (p.x - y.x), mul_self_nonneg (p.y - y.y)]
+  · have hnm : ¬ s.Mem p := by
+      rcases hc with hc | hc
+      · intro hm
+        have := hsol ((cap2_mem_iff sq s p).mp hm)
+        rw [hc] at this; exact absurd this (by simp)
+      · exact hc
+    rw [cap2_mem_iff] at hnm
+    push Not at hnm
+    have he := eps_pos (K := K)
+    have hee : ((mkRat 1 4503599627370496 : ℚ) : K) * ((mkRat 1 4503599627370496 : ℚ) : K) ≤ s.r * s.r :=
+      mul_self_le_mul_self he.le h
+    have hr0 : 0 ≤ s.r := le_trans he.le h
+    have hdir' := hdir (lt_of_le_of_lt hee hnm)
+    have hnn : 0 ≤ capAxisSq2 sq s p := le_trans (mul_self_nonneg _) hnm.le
+    have h2 := hs.sq_mul _ hnn
+    have h0 := hs.nonneg _ hnn
+    have hDr : s.r < sq (capAxisSq2 sq s p) := by
+      by_contra hcon; push Not at hcon
+      have := mul_self_le_mul_self h0 hcon
+      linarith
+    obtain ⟨q', hq', hyq⟩ := hy
+    have hvar := seg2_project_variational sq ⟨s.a, s.b⟩ p q' hq'
+    rw [e]
+    apply opt_of_var2
+    generalize sq (capAxisSq2 sq s p) = D at *
+    generalize ((⟨s.a, s.b⟩ : Segment2 K).projectLoc p).1.pt = P at *
+    have hpx : p.x = P.x + d.x * D := by have := congrArg V2.x hdir'; simp only [V2.sub, V2.smul] at this; linarith
+    have hpy : p.y = P.y + d.y * D := by have := congrArg V2.y hdir'; simp only [V2.sub, V2.smul] at this; linarith
+    have hda := dot_le2 d.x d.y (y.x - q'.x) (y.y - q'.y) 1 s.r
+      (by simpa [V2.normSq, V2.dot] using le_of_eq hd) (by simpa [V2.normSq, V2.dot, V2.sub] using hyq) zero_le_one hr0
+    have hdw : d.x * (q'.x - P.x) + d.y * (q'.y - P.y) ≤ 0 := by
+      simp only [V2.dot, V2.sub] at hvar
+      rw [hpx, hpy] at hvar
+      have hDpos : 0 < D := lt_of_le_of_lt hr0 hDr
+      by_contra hcon; push Not at hcon
+      have := mul_pos hcon hDpos
+      nlinarith
+    simp only [V2.add, V2.smul, V2.normSq, V2.dot] at hd ⊢
+    rw [hpx, hpy]
+    have e1 : (P.x + d.x * D - (P.x + d.x * s.r)) * (y.x - (P.x + d.x * s.r)) + (P.y + d.y * D - (P.y + d.y * s.r)) * (y.y - (P.y + d.y * s.r))
+        = (D - s.r) * ((d.x * (y.x - q'.x) + d.y * (y.y - q'.y))
+            + (d.x * (q'.x - P.x) + d.y * (q'.y - P.y)) - s.r) := by
+      linear_combination (-(D - s.r) * s.r) * hd
+    rw [e1]
+    apply mul_nonpos_of_nonneg_of_nonpos (by linarith)
+    linarith
+
+
+/-- **boundary** (off the axis): with `solid = false`, or for a point outside, the projection is at distance exactly `r` from
+the axis point `P` and at distance `≥ r` from every point of the axis — i.e. on the capsule's surface. -/
+theorem cap2_project_on_boundary (hs : LawfulSqrt sq) (s : Capsule2 K) (p : V2 K) (solid : Bool) (h : CapOk2 s) :
+    letI := fieldNum K sq
+    (solid = false ∨ ¬ s.Mem p) →
+    ((mkRat 1 4503599627370496 : ℚ) : K) * ((mkRat 1 4503599627370496 : ℚ) : K) < capAxisSq2 sq s p →
+    ∀ q, (⟨s.a, s.b⟩ : Segment2 K).Mem q → s.r * s.r ≤ dsq2 (s.project p solid).pt q := by
+  letI := fieldNum K sq
+  intro hc hN q hq
+  have he := eps_pos (K := K)
+  have hr0 : 0 ≤ s.r := le_trans he.le h
+  have hnn : 0 ≤ capAxisSq2 sq s p := le_trans (mul_self_nonneg _) hN.le
+  have h2 := hs.sq_mul _ hnn
+  have h0 := hs.nonneg _ hnn
+  have hDpos : 0 < sq (capAxisSq2 sq s p) := by
+    rcases lt_or_eq_of_le h0 with h' | h'
+    · exact h'
+    · rw [← h'] at h2; have := mul_pos he he; linarith
+  rcases (cap2_cases sq hs s p solid h).2 with ⟨e, hle, hsol⟩ | ⟨d, hd, e, hdir, _⟩
+  · exfalso
+    rcases hc with hc | hc
+    · rw [hc] at hsol; exact absurd hsol (by simp)
+    · exact hc ((cap2_mem_iff sq s p).mpr hle)
+  · have hdir' := hdir hN
+    have hvar := seg2_project_variational sq ⟨s.a, s.b⟩ p q hq
+    rw [e]
+    generalize sq (capAxisSq2 sq s p) = D at *
+    generalize ((⟨s.a, s.b⟩ : Segment2 K).projectLoc p).1.pt = P at *
+    have hpx : p.x = P.x + d.x * D := by have := congrArg V2.x hdir'; simp only [V2.sub, V2.smul] at this; linarith
+    have hpy : p.y = P.y + d.y * D := by have := congrArg V2.y hdir'; simp only [V2.sub, V2.smul] at this; linarith
+    have hdw : d.x * (q.x - P.x) + d.y * (q.y - P.y) ≤ 0 := by
+      simp only [V2.dot, V2.sub] at hvar
+      rw [hpx, hpy] at hvar
+      by_contra hcon; push Not at hcon
+      have := mul_pos hcon hDpos
+      nlinarith
+    simp only [V2.add, V2.smul, V2.normSq, V2.dot, dsq2] at hd ⊢
+    nlinarith [mul_self_nonneg (q.x - P.x), mul_self_nonneg (q.y - P.y), mul_nonneg hr0 (neg_nonneg.2 hdw)]
+
+/-- **optimality w.r.t. the surface** (`solid = false`, interior point off the axis): every point `y` at distance `≥ r` from the
+axis point `P` — in particular every point of the capsule's surface — is at least as far from `p` as the projection. -/
+theorem cap2_project_optimal_hollow (hs : LawfulSqrt sq) (s : Capsule2 K) (p y : V2 K) (h : CapOk2 s) :
+    letI := fieldNum K sq
+    s.Mem p →
+    ((mkRat 1 4503599627370496 : ℚ) : K) * ((mkRat 1 4503599627370496 : ℚ) : K) < capAxisSq2 sq s p →
+    s.r * s.r ≤ dsq2 y ((⟨s.a, s.b⟩ : Segment2 K).projectLoc p).1.pt →
+    dsq2 p (s.project p false).pt ≤ dsq2 p y := by
+  letI := fieldNum K sq
+  intro hm hN hy
+  have he := eps_pos (K := K)
+  have hr0 : 0 ≤ s.r := le_trans he.le h
+  have hnn : 0 ≤ capAxisSq2 sq s p := le_trans (mul_self_nonneg _) hN.le
+  have h2 := hs.sq_mul _ hnn
+  have h0 := hs.nonneg _ hnn
+  have hle := (cap2_mem_iff sq s p).mp hm
+  have hDr : sq (capAxisSq2 sq s p) ≤ s.r := by
+    apply le_of_mul_self_le hr0; rw [h2]; exact hle
+  rcases (cap2_cases sq hs s p false h).2 with ⟨_, _, hsol⟩ | ⟨d, hd, e, hdir, _⟩
+  · exact absurd hsol (by simp)
+  · have hdir' := hdir hN
+    rw [e]
+    have hyn : 0 ≤ dsq2 y ((⟨s.a, s.b⟩ : Segment2 K).projectLoc p).1.pt := le_trans (mul_self_nonneg _) hy
+    have g2 := hs.sq_mul _ hyn
+    have g0 := hs.nonneg _ hyn
+    have hηr : s.r ≤ sq (dsq2 y ((⟨s.a, s.b⟩ : Segment2 K).projectLoc p).1.pt) := by
+      apply le_of_mul_self_le g0; rw [g2]; exact hy
+    generalize sq (capAxisSq2 sq s p) = D at *
+    generalize ((⟨s.a, s.b⟩ : Segment2 K).projectLoc p).1.pt = P at *
+    have hpx : p.x = P.x + d.x * D := by have := congrArg V2.x hdir'; simp only [V2.sub, V2.smul] at this; linarith
+    have hpy : p.y = P.y + d.y * D := by have := congrArg V2.y hdir'; simp only [V2.sub, V2.smul] at this; linarith
+    have hdy := dot_le2 d.x d.y (y.x - P.x) (y.y - P.y) 1 (sq (dsq2 y P))
+      (by simpa [V2.normSq, V2.dot] using le_of_eq hd) (by rw [g2]; simp only [dsq2]; exact le_refl _) zero_le_one g0
+    generalize sq (dsq2 y P) = η at *
+    simp only [V2.add, V2.smul, V2.normSq, V2.dot, dsq2] at hd g2 ⊢
+    rw [hpx, hpy]
+    have e1 : (P.x + d.x * D - (P.x + d.x * s.r)) * (P.x + d.x * D - (P.x + d.x * s.r))
+        + (P.y + d.y * D - (P.y + d.y * s.r)) * (P.y + d.y * D - (P.y + d.y * s.r)) = (s.r - D) * (s.r - D) := by
+      linear_combination ((s.r - D) * (s.r - D)) * hd
+    have e2 : (P.x + d.x * D - y.x) * (P.x + d.x * D - y.x) + (P.y + d.y * D - y.y) * (P.y + d.y * D - y.y)
+        = D * D - 2 * D * (d.x * (y.x - P.x) + d.y * (y.y - P.y)) + η * η := by
+      linear_combination (D * D) * hd - g2
+    rw [e1, e2]
+    nlinarith [mul_nonneg h0 (sub_nonneg.2 (by linarith : d.x * (y.x - P.x) + d.y * (y.y - P.y) ≤ η)),
+      mul_nonneg (sub_nonneg.2 hηr) (by linarith : 0 ≤ η + s.r - 2 * D)]
+
+
+example : CapOk2 (⟨⟨0, 0⟩, ⟨1, 0⟩, 1/2⟩ : Capsule2 ℚ) := by simp only [CapOk2]; norm_num
+
 end C05
